@@ -24,7 +24,7 @@ def make_driver(sc):
 def main():
     rep = Report("C18", "exploration")
     quick = rep.tier == "quick"
-    schemas = S.corpus() + [S.corpus_attrs()] + S.random_schemas(rep.seed, 3 if quick else 60) + S.clash_schemas(rep.seed, 2 if quick else 20)
+    schemas = S.corpus() + [S.corpus_attrs(), S.self_clash_schema()] + S.random_schemas(rep.seed, 3 if quick else 60) + S.clash_schemas(rep.seed, 2 if quick else 20)
     cfgs = [build.Cfg("g++", "17", "O0"), build.Cfg("clang++", "11", "O0")] if quick else \
         [build.Cfg("g++", "11", "O0"), build.Cfg("g++", "20", "O0"), build.Cfg("clang++", "14", "O0"), build.Cfg("clang++", "23", "O0")]
     rep.rule("covering corpus, the attribute-matrix schema (every entity kind x {no attributes, sinceVersion, sinceVersion + "
